@@ -14,7 +14,8 @@ Reference model at every observation point.  Two drivers:
    after every accepted or rejected operation.
 
 Clauses: asset_value, each market's net value (market quote), the total, the sum formula with the quote conversion,
-wallet balances in the status, data-frame rows; exceptions out of the valuation."""
+wallet balances in the status, the status of a bar being computed on the holdings at the end of after_bar, data-frame
+rows; exceptions out of the valuation."""
 import copy
 import traceback
 from datetime import timedelta
@@ -33,10 +34,11 @@ from ..oracles import valuation as V
 ID = "C01"
 META = {
     "level": "exploration",
-    "rule": "a case = one Actuator run (12-75 bars, 1-min or 5-min; mixes uni+aave+gmx, squeeth+pool, deribit+uni, "
-    "all market types, gmx+gmx2; account quote equal to / different from the markets' quotes; price frames equal to or "
-    "deviating from pool prices) or one frozen scene (15-50 operations). One evaluation = one comparison of a reported "
-    "figure (asset value, one market's net value, total, sum formula, a data-frame row) with the independent valuation. "
+    "rule": "a case = one Actuator run (12-120 bars, 1-min or 5-min; mixes uni+aave+gmx, squeeth+pool with LP lent to a vault, "
+    "deribit+uni, all market types, gmx+gmx2, real-data slices of tests/data (polygon pool + aave WETH + squeeth + its pool); "
+    "account quote equal to / different from the markets' quotes; price frames equal to or deviating from pool prices) or one "
+    "frozen scene (15-50 operations, status after each). One evaluation = one comparison of a reported figure (asset value, "
+    "wallet balances, one market's net value, total, sum formula, bar-end holdings, a data-frame row) with the independent valuation. "
     "Non-trivial = an observation point with >= 2 non-zero holdings; distinct by (path, market mix, per-market quote "
     "relation, set of non-zero holding kinds, lent/free position pattern, open/closed deribit bar).",
     "assumptions": [
@@ -521,12 +523,13 @@ def evaluate(ctx, status, st, ts, op="bar-end", extra=None):
             mon.hit("deribit-closed-bar-with-options")
     if len(kinds) >= 2:
         mon.nt(f"{where}/{ctx.mix}/{','.join(qrel)}/{'+'.join(sorted(kinds))}/{lent_pat}/{'' if der_open is None else ('o' if der_open else 'c')}")
-        mon.sample({"path": where, "mix": ctx.mix, "bar": str(ts), "after": op, "account_quote": ctx.quote, "markets": qrel,
-                    "holdings": sorted(kinds), "reported_net_value": str(status.net_value), "oracle_net_value": float(total_lo),
-                    "reported_asset_value": str(status.asset_value),
-                    "per_market": {n: {"reported": str(reported[n].net_value) if n in reported else None, "oracle": float(v.value)}
-                                   for n, (v, _d) in om.items()}},
-                   cls=f"{where}/{ctx.mix}/{'+'.join(sorted(kinds))[:40]}")
+        if len(kinds) >= 3 or lent_n:  # one concrete case per (path, mix) and shard
+            mon.sample({"path": where, "mix": ctx.mix, "bar": str(ts), "after": op, "account_quote": ctx.quote, "markets": qrel,
+                        "holdings": sorted(kinds), "lent_positions": lent_n, "reported_net_value": str(status.net_value),
+                        "oracle_net_value": float(total_lo), "reported_asset_value": str(status.asset_value),
+                        "per_market": {n: {"reported": str(reported[n].net_value) if n in reported else None, "oracle": float(v.value)}
+                                       for n, (v, _d) in om.items()}},
+                       cls=f"{where}/{ctx.mix}")
     return om
 
 
@@ -823,6 +826,8 @@ def build_all(rng):
                      index_kind=rng.choice(["slow", "jumpy"]))
     am = aw.market("aave")
     quote = rng.choice([_usd(), _tok("USDC", 6)])
+    if quote.name in frame.columns:  # a frame denominated in the account quote prices that token at exactly 1
+        frame[quote.name] = Decimal(1)
     markets = [um, am, um2, sm, dm, gm, m2]
     first = markets.pop(rng.randrange(4))  # a minutely market first: it is the default market
     rng.shuffle(markets)
@@ -849,6 +854,8 @@ def build_gg(rng):
     else:
         frame = walk_frame(rng, gw.index, {"WETH": 2000.0, "WAVAX": 30.0, "WBTC": 40000.0, "USDC": 0.9996, "MIM": 1.0})
     quote = rng.choice([_usd(), _tok("USDC", 6)])
+    if quote.name in frame.columns:
+        frame[quote.name] = Decimal(1)
     big = {"USDC": 10**6, "MIM": 10**4, "WETH": 500, "WBTC": 5, "WAVAX": 2000}
     assets = {t: Decimal(rng.choice([0, big[t.name], big[t.name]])) for t in gw.tokens}
     return {"markets": [gm, m2] if rng.random() < 0.5 else [m2, gm], "kits": [G.GmxKit(gm, gw), G.Gmx2Kit(m2, g2)], "frame": frame,
